@@ -106,6 +106,15 @@ func (g *gen) runTransfers() {
 	g.loop(g.transfersTable())
 }
 
+// runOneChain: a ONE-shard network (shard 0 and the metachain): seen from the metachain node every ordinary account is
+// remote although "number of shards" is 1; then ordinary single-shard traffic.
+func (g *gen) runOneChain() {
+	g.setupWorld(worldOpts{nsh: 1, activation: 0, epoch: 1})
+	g.standardState()
+	g.metaNodeScenario()
+	g.loop(g.transfersTable())
+}
+
 // metaNodeScenario: the node of shard 0 becomes a METACHAIN node; a metachain contract that holds a fungible token and an
 // SFT tries the three transfer functions towards another metachain address (refused on every node, this one included)
 // and towards an ordinary account; then the node is an ordinary one again.
@@ -115,35 +124,77 @@ func (g *gen) metaNodeScenario() {
 	if g.w.ShardOf(ma) != 0xFFFFFFFF || g.w.ShardOf(mb) != 0xFFFFFFFF {
 		return
 	}
-	tokF, tokN := g.newTokenID(""), g.newTokenID("")
+	tokF, tokN, tokH := g.newTokenID(""), g.newTokenID(""), g.newTokenID("")
 	fb, err1 := (&esdt.ESDigitalToken{Value: big.NewInt(100)}).Marshal()
 	nb, err2 := (&esdt.ESDigitalToken{Type: 1, Value: big.NewInt(5), TokenMetaData: &esdt.MetaData{Nonce: 1, Name: []byte("m"), Creator: ma, Hash: []byte("h"), URIs: [][]byte{[]byte("u")}}}).Marshal()
 	if err1 != nil || err2 != nil {
 		return
 	}
-	// node 0 plays the metachain for the length of this scenario only: nothing else may be under way while it does
-	// (a message towards an ordinary shard-0 account would find no node), and the ordinary destination lives elsewhere
+	on0 := func(fn string, caller, rcv []byte, args ...[]byte) spec {
+		gas := uint64(bigGas)
+		if bytes.Equal(caller, oracle.ESDTSC) {
+			gas = 0
+		}
+		return spec{shard: 0, fn: fn, caller: caller, rcv: rcv, gas: gas, args: args}
+	}
+	three := func(dst []byte) {
+		g.do(on0(oracle.FnTransfer, ma, dst, tokF, []byte{1}))
+		g.do(on0(oracle.FnNFTTransfer, ma, ma, tokN, []byte{1}, []byte{1}, dst))
+		g.do(on0(oracle.FnMultiTransfer, ma, ma, dst, []byte{2}, tokN, []byte{1}, []byte{1}, tokF, []byte{}, []byte{2}))
+	}
+	// node 0 plays the metachain for the length of this scenario only: nothing else may be under way while it does (a
+	// message towards an ordinary shard-0 account would find no node)
 	g.drain()
 	g.emit("selfmeta 0 on")
 	g.emitf("raw 0 %s %s %s", hx(ma), hx([]byte(oracle.TokenKey(tokF, 0))), hx(fb))
 	g.emitf("raw 0 %s %s %s", hx(ma), hx([]byte(oracle.TokenKey(tokN, 1))), hx(nb))
-	dsts := [][]byte{mb}
-	for _, u := range g.users {
-		if g.shardOf(u) > 0 {
-			dsts = append(dsts, u)
+	// (a) a contract on ANOTHER shard that does not accept payments: the deliveries are refused there and the refunds
+	// come back to the metachain contract while node 0 still is the metachain (a caller of the metachain's address class
+	// is an ordinary caller: only the ESDT system contract itself is exempt from the payability question)
+	for _, c := range g.contracts {
+		if g.shardOf(c) > 0 {
+			g.emitf("payable %s no", hx(c))
+			// (NFT and multi transfers only: the plain ESDTTransfer refuses a metachain RECEIVER on every node, its own
+			// refund included - the metachain holds no fungible balances in the protocol; this scenario's are seeded)
+			g.do(on0(oracle.FnNFTTransfer, ma, ma, tokN, []byte{1}, []byte{1}, c))
+			g.do(on0(oracle.FnMultiTransfer, ma, ma, c, []byte{2}, tokN, []byte{1}, []byte{1}, tokF, []byte{}, []byte{2}))
+			g.drain()
+			g.emitf("payable %s yes", hx(c))
 			break
 		}
 	}
-	for _, dst := range dsts {
-		g.do(spec{shard: 0, fn: oracle.FnTransfer, caller: ma, rcv: dst, gas: bigGas, args: [][]byte{tokF, {1}}})
-		g.do(spec{shard: 0, fn: oracle.FnNFTTransfer, caller: ma, rcv: ma, gas: bigGas, args: [][]byte{tokN, {1}, {1}, dst}})
-		g.do(spec{shard: 0, fn: oracle.FnMultiTransfer, caller: ma, rcv: ma, gas: bigGas, args: [][]byte{dst, {2}, tokN, {1}, {1}, tokF, {}, {2}}})
+	// (b) towards another metachain address (refused) and towards an ordinary account that accepts (whatever its shard:
+	// seen from the metachain every ordinary account is remote, on a one-shard network too)
+	user := g.pick(g.users)
+	g.emitf("payable %s yes", hx(user))
+	three(mb)
+	three(user)
+	// (c) the gates hold for a holder of the metachain's address class as for anybody else (only the ESDT system
+	// contract's own account is exempt): frozen, then paused, it moves nothing
+	g.do(on0(oracle.FnFreeze, oracle.ESDTSC, ma, tokF))
+	g.do(on0(oracle.FnTransfer, ma, user, tokF, []byte{1}))
+	g.do(on0(oracle.FnBurn, ma, oracle.ESDTSC, tokF, []byte{1}))
+	g.do(on0(oracle.FnMultiTransfer, ma, ma, user, []byte{1}, tokF, []byte{}, []byte{1}))
+	g.do(on0(oracle.FnUnFreeze, oracle.ESDTSC, ma, tokF))
+	g.do(on0(oracle.FnPause, oracle.ESDTSC, oracle.SystemAccount, tokN))
+	g.do(on0(oracle.FnNFTTransfer, ma, ma, tokN, []byte{1}, []byte{1}, user))
+	g.do(on0(oracle.FnMultiTransfer, ma, ma, user, []byte{1}, tokN, []byte{1}, []byte{1}))
+	g.do(on0(oracle.FnUnPause, oracle.ESDTSC, oracle.SystemAccount, tokN))
+	g.do(on0(oracle.FnTransfer, ma, user, tokF, []byte{1}))
+	// (d) a create role handed over FROM a metachain holder to an account of the shard this node ordinarily serves: for
+	// the metachain node that account is remote - the counter travels in the message and nothing is written here
+	for _, u := range g.users {
+		if g.shardOf(u) == 0 {
+			g.do(on0(oracle.FnSetRole, oracle.ESDTSC, ma, tokH, []byte(oracle.RoleNFTCreate)))
+			g.do(on0(oracle.FnNFTCreate, ma, ma, g.createArgs(tokH, 1, 1)...))
+			g.do(on0(oracle.FnNFTCreate, ma, ma, g.createArgs(tokH, 1, 1)...))
+			g.do(on0(oracle.FnHandOver, oracle.ESDTSC, ma, tokH, u))
+			break
+		}
 	}
-	// the messages this scenario put in flight are delivered - and, if refused, refunded - while node 0 still IS the
-	// metachain: a node does not change its shard with its own messages under way (a refund towards a metachain
-	// contract addressed to a node that no longer is the metachain would be refused for the address, not for the ledger)
-	g.drain()
 	g.emit("selfmeta 0 off")
+	// what is still under way (towards ordinary accounts that accept) is delivered with node 0 back in its own role
+	g.drain()
 }
 
 // ---------------------------------------------------------------------------
@@ -249,6 +300,7 @@ func (g *gen) runGates() {
 	g.setupWorld(worldOpts{activation: 0, epoch: 1})
 	g.standardState()
 	g.widenRoles()
+	g.metaNodeScenario()
 	g.opPauseSpelled()
 	g.loop([]wop{
 		{2, g.opPauseSpelled}, {14, g.opFreezeToggle}, {9, g.opPauseToggle},
@@ -913,9 +965,45 @@ func (g *gen) runGas() {
 // nonces (C07)
 // ---------------------------------------------------------------------------
 
+// reassignedNodeScenario: node 0 is reassigned to serve shard 1 IN PLACE (same container, same function objects; its
+// coordinator answers SelfId() = 1 from now on). An account of shard 1 that lives on it gets a create role, creates, and
+// the role is handed over to an account of shard 0 - the shard this node served when its functions were built. For the
+// node as it is NOW that account is remote: the counter travels in the message, nothing is written here.
+func (g *gen) reassignedNodeScenario() {
+	if g.nsh < 2 {
+		return
+	}
+	x := userAddr(40, 1)
+	var u0 []byte
+	for _, u := range g.users {
+		if g.shardOf(u) == 0 {
+			u0 = u
+			break
+		}
+	}
+	if g.shardOf(x) != 1 || u0 == nil {
+		return
+	}
+	tok := g.newTokenID("")
+	g.drain()
+	g.emit("selfas 0 1")
+	g.do(spec{shard: 0, fn: oracle.FnSetRole, caller: oracle.ESDTSC, rcv: x, args: [][]byte{tok, []byte(oracle.RoleNFTCreate)}})
+	g.do(spec{shard: 0, fn: oracle.FnNFTCreate, caller: x, rcv: x, gas: bigGas, args: g.createArgs(tok, 1, 1)})
+	g.do(spec{shard: 0, fn: oracle.FnNFTCreate, caller: x, rcv: x, gas: bigGas, args: g.createArgs(tok, 1, 1)})
+	g.do(spec{shard: 0, fn: oracle.FnHandOver, caller: oracle.ESDTSC, rcv: x, args: [][]byte{tok, u0}})
+	g.emit("selfas 0 own")
+	// before the message arrives the next holder holds nothing yet (its attempt is refused); afterwards it continues the
+	// sequence where the previous holder stopped
+	g.do(g.user(oracle.FnNFTCreate, u0, u0, bigGas, g.createArgs(tok, 1, 1)...))
+	g.drain()
+	g.do(g.user(oracle.FnNFTCreate, u0, u0, bigGas, g.createArgs(tok, 1, 1)...))
+}
+
 func (g *gen) runNonces() {
 	g.setupWorld(worldOpts{activation: 0, epoch: 0})
 	g.standardState()
+	g.metaNodeScenario()
+	g.reassignedNodeScenario()
 	// several tokens per creator, some with a pre-seeded counter
 	creator := g.pick(g.accounts)
 	seeds := counterSeeds
